@@ -192,6 +192,33 @@ func (p *Prog) Named(short, name string) *types.Named {
 
 // Fn resolves "fsm.(*StateMachine).ApplyBlock", "lib.Marshal", "fsm.(StateMachine).X" to its SSA function.
 func (p *Prog) Fn(spec string) *ssa.Function {
+	if f := p.fnExact(spec); f != nil {
+		return f
+	}
+	// the function may have been renamed since the reference tree (newfn.go)
+	if p.Funcs != nil {
+		short, recv, name, ptr := parseFnSpec(spec)
+		old := short + "." + name
+		if recv != "" {
+			star := ""
+			if ptr {
+				star = "*"
+			}
+			old = "(" + star + short + "." + recv + ")." + name
+		}
+		if f := p.newFns().renamed[old]; f != nil {
+			return f
+		}
+		if recv != "" && !ptr {
+			if f := p.newFns().renamed["(*"+short+"."+recv+")."+name]; f != nil {
+				return f
+			}
+		}
+	}
+	return nil
+}
+
+func (p *Prog) fnExact(spec string) *ssa.Function {
 	short, recv, name, ptr := parseFnSpec(spec)
 	pk := p.pkg(short)
 	if pk == nil {
@@ -321,6 +348,22 @@ func (p *Prog) InfoFor(f *ssa.Function) *types.Info {
 
 // fnName is a stable, human readable name: fsm.(*StateMachine).ApplyBlock or fsm.(*StateMachine).ApplyBlock$1
 func fnName(f *ssa.Function) string {
+	s := fnNameRaw(f)
+	// a function renamed since the reference tree keeps its reference name in keys, tables and reports (newfn.go), so a
+	// rename changes neither obligation keys nor the reasoned tables that name functions
+	if theProg != nil && theProg.nf != nil && len(theProg.nf.oldName) > 0 && f != nil {
+		top := rawEnclosing(origin(f))
+		if old, ok := theProg.nf.oldName[top]; ok {
+			cur := fnNameRaw(top)
+			if strings.HasPrefix(s, cur) {
+				return old + s[len(cur):]
+			}
+		}
+	}
+	return s
+}
+
+func fnNameRaw(f *ssa.Function) string {
 	if f == nil {
 		return "<nil>"
 	}
